@@ -216,6 +216,7 @@ def fixed_cases() -> list[Case]:
         ("{ a = \"é—✓\"; }\n".encode(), "non-ascii"), (b"{ a = 1; }\r\n", "crlf"), (b'{ a = "x\ry"; }\n', "lone-cr"),
         (b"http://foo.bar\n", "unsupported"), (b'{ a = "\xff"; }\n', "invalid-utf8"),
         (b"{\n  a = 1;\n  b = 2;\n}\n", "canonical"),
+        (b"\xef\xbb\xbf{ a = 1; }\n", "utf8-bom"),
     ]:
         c.append(Case("test", [], data, kind))
         c.append(Case("set", ["a", "2"], data, kind, opt_first=False))
